@@ -1,12 +1,14 @@
 """Transform-level correspondence shared by C01, C02, C07, C12, C17, C19: run the implementation, feed the Lean model the
 same inputs plus the recorded conditioner outputs, compare the requested observables."""
+import copy
 import math
+import pickle
 import torch
 from . import registry as R, leandriver, bits
 
 
 class Job:
-    __slots__ = ('e', 'regime', 'inverse', 'x', 'ctx', 'kind', 'y', 'ld', 'reqs', 'rec_inputs', 'tag', 'prec', 't', 'resp', 'nograd', 'nc')
+    __slots__ = ('e', 'regime', 'inverse', 'x', 'ctx', 'kind', 'y', 'ld', 'reqs', 'rec_inputs', 'tag', 'prec', 't', 'resp', 'nograd', 'nc', 'cp')
 
     def __init__(self, **kw):
         for k in self.__slots__:
@@ -53,8 +55,26 @@ def make_job(e, t, x, ctx, inverse, regime='', tag=None):
     xn = noncontiguous(x)
     if xn is not None and tag != 'backward':
         nc = R.impl_call(t, xn, ctx, inverse)
+    # a copy of the object made by standard Python means (copy.deepcopy / a pickle round trip, alternating): the same function, so
+    # bit-identical results in evaluation mode — state kept outside parameters and buffers must survive the copy
+    cp = None
+    if tag != 'backward':
+        _COPY[0] += 1
+        how = 'deepcopy' if _COPY[0] % 2 else 'pickle'
+        try:
+            t2 = copy.deepcopy(t) if how == 'deepcopy' else pickle.loads(pickle.dumps(t))
+        except Exception as ex:
+            # unpicklable members (local functions as activations) on some registry entries: nothing to compare
+            t2 = None if how == 'pickle' and isinstance(ex, (pickle.PicklingError, AttributeError, TypeError)) else ex
+        if isinstance(t2, Exception):
+            cp = (how, ('copy-raises:' + type(t2).__name__, None, None))
+        elif t2 is not None:
+            cp = (how, R.impl_call(t2, x, ctx, inverse))
     return Job(e=e, regime=regime, inverse=inverse, x=x, ctx=ctx, kind=kind, y=y, ld=ld, reqs=reqs, rec_inputs=rec_inputs,
-               tag=tag, prec=prec, t=t, nograd=ng, nc=nc)
+               tag=tag, prec=prec, t=t, nograd=ng, nc=nc, cp=cp)
+
+
+_COPY = [0]
 
 
 def noncontiguous(x):
@@ -167,6 +187,11 @@ def compare(ctx, j, prop, observables=('out', 'ld'), atol=1e-9, rtol=1e-9, check
         if bad:
             ctx.disagree(prop + '/' + e.kind, case, {'noncontiguous': k3}, {'contiguous': j.kind},
                          'the same values passed as a dense non-contiguous tensor give a different result')
+    if j.cp is not None:
+        how, (k4, y4, l4) = j.cp
+        if k4 != j.kind or (k4 == 'ok' and not (torch.equal(torch.nan_to_num(y4, nan=1.25e300), torch.nan_to_num(j.y, nan=1.25e300))
+                                               and torch.equal(torch.nan_to_num(l4, nan=1.25e300), torch.nan_to_num(j.ld, nan=1.25e300)))):
+            ctx.disagree(prop + '/' + e.kind, case, {how: k4}, {'original': j.kind}, 'a %s copy of the transform computes something else than the original' % how)
     if not j.resp:
         ctx.case(n=n, branch=br + '/no-model')
         if j.kind != 'ok':
